@@ -141,6 +141,9 @@ func (e *Exec) nativeStructType(t types.Type) (reflect.Type, bool) {
 			return nil, false
 		}
 	}
+	if key == "go/types.Checker" {
+		return nil, false // engine memory: its isTerminating family runs as SSA (reference implementation for C10)
+	}
 	rt, ok := nativeTypes[key]
 	return rt, ok
 }
